@@ -1539,7 +1539,7 @@ def run(ck, tier, rng):
                          "the model finds a refused assignment to %s after which its getter raises (Diag_C09, C09_breaking_witness_sound) but no such assignment was reproduced on the implementation" % cn,
                          {"theorem_or_correspondence": "C09_no_unknown_breaking", "property": cn}, concrete=False)
 
-    any_concrete = any(v["concrete"] for v in ck.violations) or bool(ck.known_hits)
+    any_concrete = any(v["concrete"] for v in ck.violations)
     if diffs and not any_concrete:
         ck.violation("correspondence",
                      "model/PropCatalogue.v and the implementation disagree on %d of %d histories, e.g. %s (%s): %s" % (diffs, len(cases), first[0], first[1], first[2]),
